@@ -10,19 +10,18 @@ set_option linter.unusedSectionVars false
 namespace Xrl
 namespace C19
 
-/-- unfold the two generated definitions, instantiate the Java tables by the C tables, normalise the `int` ranges -/
-macro "jeq_start" ids:(ppSpace colGt ident)+ : tactic =>
-  `(tactic| (
-    unfold $ids*
-    simp only [ofC_ZMAX, ofC_SHELLNUM, ofC_SHELLNUM_K, ofC_SHELLNUM_A, ofC_TRANSNUM, ofC_LINENUM, ofC_AUGERNUM, ofC_RE2, ofC_MEC2, ofC_AVOGNUM, ofC_KEV2ANGST, ofC_R_E, ofC_AtomicWeight_arr, ofC_ElementDensity_arr, ofC_EdgeEnergy_arr, ofC_AtomicLevelWidth_arr, ofC_LineEnergy_arr, ofC_FluorYield_arr, ofC_JumpFactor_arr, ofC_CosKron_arr, ofC_RadRate_arr, ofC_xrf_cross_sections_constants_full, ofC_xrf_cross_sections_constants_auger_only, ofC_NE_Photo_arr, ofC_E_Photo_arr, ofC_CS_Photo_arr, ofC_CS_Photo_arr2, ofC_NE_Rayl_arr, ofC_E_Rayl_arr, ofC_CS_Rayl_arr, ofC_CS_Rayl_arr2, ofC_NE_Compt_arr, ofC_E_Compt_arr, ofC_CS_Compt_arr, ofC_CS_Compt_arr2, ofC_NE_Energy_arr, ofC_E_Energy_arr, ofC_CS_Energy_arr, ofC_CS_Energy_arr2, ofC_Nq_Rayl_arr, ofC_q_Rayl_arr, ofC_FF_Rayl_arr, ofC_FF_Rayl_arr2, ofC_Nq_Compt_arr, ofC_q_Compt_arr, ofC_SF_Compt_arr, ofC_SF_Compt_arr2, ofC_NE_Fi_arr, ofC_E_Fi_arr, ofC_Fi_arr, ofC_Fi_arr2, ofC_NE_Fii_arr, ofC_E_Fii_arr, ofC_Fii_arr, ofC_Fii_arr2, ofC_NE_Photo_Total_Kissel_arr, ofC_Electron_Config_Kissel_arr, ofC_NE_Photo_Partial_Kissel_arr, ofC_E_Photo_Partial_Kissel_arr, ofC_Photo_Partial_Kissel_arr, ofC_Photo_Partial_Kissel_arr2, ofC_NShells_ComptonProfiles_arr, ofC_Npz_ComptonProfiles_arr, ofC_UOCCUP_ComptonProfiles_arr, ofC_pz_ComptonProfiles_arr, ofC_Total_ComptonProfiles_arr, ofC_Total_ComptonProfiles_arr2, ofC_Partial_ComptonProfiles_arr, ofC_Partial_ComptonProfiles_arr2, ofC_Auger_Yields_arr, ofC_Auger_Rates_arr, Hdr.ZMAX, Hdr.SHELLNUM, Hdr.SHELLNUM_K, Hdr.SHELLNUM_A, Hdr.TRANSNUM, Hdr.LINENUM, Hdr.AUGERNUM,
-      Hdr.RE2, Hdr.MEC2, Hdr.AVOGNUM, Hdr.KEV2ANGST, Hdr.R_E, setErr_notFull (by assumption), inI32, INT_MIN, INT_MAX] at *))
+/-- instantiate the Java tables by the C tables (`JTables.ofC`, field by field), the header constants, the `int` ranges -/
+macro "jeq_normJ" : tactic =>
+  `(tactic| simp only [ofC_ZMAX, ofC_SHELLNUM, ofC_SHELLNUM_K, ofC_SHELLNUM_A, ofC_TRANSNUM, ofC_LINENUM, ofC_AUGERNUM, ofC_RE2, ofC_MEC2, ofC_AVOGNUM, ofC_KEV2ANGST, ofC_R_E, ofC_AtomicWeight_arr, ofC_ElementDensity_arr, ofC_EdgeEnergy_arr, ofC_AtomicLevelWidth_arr, ofC_LineEnergy_arr, ofC_FluorYield_arr, ofC_JumpFactor_arr, ofC_CosKron_arr, ofC_RadRate_arr, ofC_xrf_cross_sections_constants_full, ofC_xrf_cross_sections_constants_auger_only, ofC_NE_Photo_arr, ofC_E_Photo_arr, ofC_CS_Photo_arr, ofC_CS_Photo_arr2, ofC_NE_Rayl_arr, ofC_E_Rayl_arr, ofC_CS_Rayl_arr, ofC_CS_Rayl_arr2, ofC_NE_Compt_arr, ofC_E_Compt_arr, ofC_CS_Compt_arr, ofC_CS_Compt_arr2, ofC_NE_Energy_arr, ofC_E_Energy_arr, ofC_CS_Energy_arr, ofC_CS_Energy_arr2, ofC_Nq_Rayl_arr, ofC_q_Rayl_arr, ofC_FF_Rayl_arr, ofC_FF_Rayl_arr2, ofC_Nq_Compt_arr, ofC_q_Compt_arr, ofC_SF_Compt_arr, ofC_SF_Compt_arr2, ofC_NE_Fi_arr, ofC_E_Fi_arr, ofC_Fi_arr, ofC_Fi_arr2, ofC_NE_Fii_arr, ofC_E_Fii_arr, ofC_Fii_arr, ofC_Fii_arr2, ofC_NE_Photo_Total_Kissel_arr, ofC_Electron_Config_Kissel_arr, ofC_NE_Photo_Partial_Kissel_arr, ofC_E_Photo_Partial_Kissel_arr, ofC_Photo_Partial_Kissel_arr, ofC_Photo_Partial_Kissel_arr2, ofC_NShells_ComptonProfiles_arr, ofC_Npz_ComptonProfiles_arr, ofC_UOCCUP_ComptonProfiles_arr, ofC_pz_ComptonProfiles_arr, ofC_Total_ComptonProfiles_arr, ofC_Total_ComptonProfiles_arr2, ofC_Partial_ComptonProfiles_arr, ofC_Partial_ComptonProfiles_arr2, ofC_Auger_Yields_arr, ofC_Auger_Rates_arr, Hdr.ZMAX, Hdr.SHELLNUM, Hdr.SHELLNUM_K, Hdr.SHELLNUM_A, Hdr.TRANSNUM, Hdr.LINENUM, Hdr.AUGERNUM,
+      Hdr.RE2, Hdr.MEC2, Hdr.AVOGNUM, Hdr.KEV2ANGST, Hdr.R_E, inI32, INT_MIN, INT_MAX] at *)
+macro "jeq_norm" : tactic =>
+  `(tactic| simp only [ofC_ZMAX, ofC_SHELLNUM, ofC_SHELLNUM_K, ofC_SHELLNUM_A, ofC_TRANSNUM, ofC_LINENUM, ofC_AUGERNUM, ofC_RE2, ofC_MEC2, ofC_AVOGNUM, ofC_KEV2ANGST, ofC_R_E, ofC_AtomicWeight_arr, ofC_ElementDensity_arr, ofC_EdgeEnergy_arr, ofC_AtomicLevelWidth_arr, ofC_LineEnergy_arr, ofC_FluorYield_arr, ofC_JumpFactor_arr, ofC_CosKron_arr, ofC_RadRate_arr, ofC_xrf_cross_sections_constants_full, ofC_xrf_cross_sections_constants_auger_only, ofC_NE_Photo_arr, ofC_E_Photo_arr, ofC_CS_Photo_arr, ofC_CS_Photo_arr2, ofC_NE_Rayl_arr, ofC_E_Rayl_arr, ofC_CS_Rayl_arr, ofC_CS_Rayl_arr2, ofC_NE_Compt_arr, ofC_E_Compt_arr, ofC_CS_Compt_arr, ofC_CS_Compt_arr2, ofC_NE_Energy_arr, ofC_E_Energy_arr, ofC_CS_Energy_arr, ofC_CS_Energy_arr2, ofC_Nq_Rayl_arr, ofC_q_Rayl_arr, ofC_FF_Rayl_arr, ofC_FF_Rayl_arr2, ofC_Nq_Compt_arr, ofC_q_Compt_arr, ofC_SF_Compt_arr, ofC_SF_Compt_arr2, ofC_NE_Fi_arr, ofC_E_Fi_arr, ofC_Fi_arr, ofC_Fi_arr2, ofC_NE_Fii_arr, ofC_E_Fii_arr, ofC_Fii_arr, ofC_Fii_arr2, ofC_NE_Photo_Total_Kissel_arr, ofC_Electron_Config_Kissel_arr, ofC_NE_Photo_Partial_Kissel_arr, ofC_E_Photo_Partial_Kissel_arr, ofC_Photo_Partial_Kissel_arr, ofC_Photo_Partial_Kissel_arr2, ofC_NShells_ComptonProfiles_arr, ofC_Npz_ComptonProfiles_arr, ofC_UOCCUP_ComptonProfiles_arr, ofC_pz_ComptonProfiles_arr, ofC_Total_ComptonProfiles_arr, ofC_Total_ComptonProfiles_arr2, ofC_Partial_ComptonProfiles_arr, ofC_Partial_ComptonProfiles_arr2, ofC_Auger_Yields_arr, ofC_Auger_Rates_arr, Hdr.ZMAX, Hdr.SHELLNUM, Hdr.SHELLNUM_K, Hdr.SHELLNUM_A, Hdr.TRANSNUM, Hdr.LINENUM, Hdr.AUGERNUM,
+      Hdr.RE2, Hdr.MEC2, Hdr.AVOGNUM, Hdr.KEV2ANGST, Hdr.R_E, setErr_notFull (by assumption), inI32, INT_MIN, INT_MAX] at *)
 
-/-- the same for a statement about the Java side alone: unfold, instantiate the Java tables by the C tables, normalise the `int` ranges -/
-macro "jeq_startJ" ids:(ppSpace colGt ident)+ : tactic =>
-  `(tactic| (
-    unfold $ids*
-    simp only [ofC_ZMAX, ofC_SHELLNUM, ofC_SHELLNUM_K, ofC_SHELLNUM_A, ofC_TRANSNUM, ofC_LINENUM, ofC_AUGERNUM, ofC_RE2, ofC_MEC2, ofC_AVOGNUM, ofC_KEV2ANGST, ofC_R_E, ofC_AtomicWeight_arr, ofC_ElementDensity_arr, ofC_EdgeEnergy_arr, ofC_AtomicLevelWidth_arr, ofC_LineEnergy_arr, ofC_FluorYield_arr, ofC_JumpFactor_arr, ofC_CosKron_arr, ofC_RadRate_arr, ofC_xrf_cross_sections_constants_full, ofC_xrf_cross_sections_constants_auger_only, ofC_NE_Photo_arr, ofC_E_Photo_arr, ofC_CS_Photo_arr, ofC_CS_Photo_arr2, ofC_NE_Rayl_arr, ofC_E_Rayl_arr, ofC_CS_Rayl_arr, ofC_CS_Rayl_arr2, ofC_NE_Compt_arr, ofC_E_Compt_arr, ofC_CS_Compt_arr, ofC_CS_Compt_arr2, ofC_NE_Energy_arr, ofC_E_Energy_arr, ofC_CS_Energy_arr, ofC_CS_Energy_arr2, ofC_Nq_Rayl_arr, ofC_q_Rayl_arr, ofC_FF_Rayl_arr, ofC_FF_Rayl_arr2, ofC_Nq_Compt_arr, ofC_q_Compt_arr, ofC_SF_Compt_arr, ofC_SF_Compt_arr2, ofC_NE_Fi_arr, ofC_E_Fi_arr, ofC_Fi_arr, ofC_Fi_arr2, ofC_NE_Fii_arr, ofC_E_Fii_arr, ofC_Fii_arr, ofC_Fii_arr2, ofC_NE_Photo_Total_Kissel_arr, ofC_Electron_Config_Kissel_arr, ofC_NE_Photo_Partial_Kissel_arr, ofC_E_Photo_Partial_Kissel_arr, ofC_Photo_Partial_Kissel_arr, ofC_Photo_Partial_Kissel_arr2, ofC_NShells_ComptonProfiles_arr, ofC_Npz_ComptonProfiles_arr, ofC_UOCCUP_ComptonProfiles_arr, ofC_pz_ComptonProfiles_arr, ofC_Total_ComptonProfiles_arr, ofC_Total_ComptonProfiles_arr2, ofC_Partial_ComptonProfiles_arr, ofC_Partial_ComptonProfiles_arr2, ofC_Auger_Yields_arr, ofC_Auger_Rates_arr, Hdr.ZMAX, Hdr.SHELLNUM, Hdr.SHELLNUM_K, Hdr.SHELLNUM_A, Hdr.TRANSNUM, Hdr.LINENUM, Hdr.AUGERNUM,
-      Hdr.RE2, Hdr.MEC2, Hdr.AVOGNUM, Hdr.KEV2ANGST, Hdr.R_E, inI32, INT_MIN, INT_MAX] at *))
+/-- unfold the generated definitions named, then `jeq_norm` -/
+macro "jeq_start" ids:(ppSpace colGt ident)+ : tactic => `(tactic| (unfold $ids*; jeq_norm))
+/-- the same for a statement about the Java side alone -/
+macro "jeq_startJ" ids:(ppSpace colGt ident)+ : tactic => `(tactic| (unfold $ids*; jeq_normJ))
 
 section accessors
 variable (T : Tables ℝ) (Z m : Int) (hZ : inI32 Z) (hm : inI32 m) (s : Slot) (hs : s.isFull = false)
@@ -61,6 +60,34 @@ theorem java_eq_c_AugerYield : JRel (JGen.AugerYield (JTables.ofC T) Z m) (Gen.A
   jeq_start JGen.AugerYield Gen.AugerYield; jeq_auto
 
 end accessors
+
+section radrate
+variable (T : Tables ℝ) (Z m : Int) (hZ : inI32 Z) (hm : inI32 m) (s : Slot) (hs : s.isFull = false)
+include hZ hs
+
+theorem java_eq_c_RadRate_KA (fuel : Nat) :
+    JRel (JGen.RadRate_fuel (fuel + 1) (JTables.ofC T) Z 0) (Gen.RadRate_fuel (fuel + 1) T Z 0 s) s := by
+  jeq_start JGen.RadRate_fuel Gen.RadRate_fuel
+  simp only [loopM_3, jloopM_3]
+  jeq_auto
+
+include hm
+theorem java_eq_c_RadRate : JRel (JGen.RadRate (JTables.ofC T) Z m) (Gen.RadRate T Z m s) s := by
+  unfold JGen.RadRate Gen.RadRate FUEL
+  jeq_start JGen.RadRate_fuel Gen.RadRate_fuel
+  by_cases hz : Z < 1 ∨ Z > 120
+  · jeq_auto
+  by_cases h1 : m = 1
+  · subst h1
+    jeq_simp
+    unfold JGen.RadRate_fuel Gen.RadRate_fuel
+    simp only [loopM_3, jloopM_3]
+    jeq_norm
+    jeq_auto
+  · simp only [loopM_3, jloopM_3]
+    jeq_auto
+
+end radrate
 
 section closed_form
 variable (T : Tables ℝ) (E theta phi : ℝ) (s : Slot) (hs : s.isFull = false)
